@@ -69,6 +69,8 @@ func main() {
 				noEvidence = true
 			case "-v", "--verbose":
 				verbose = true
+			case "--draft-reviewed":
+				draftReviewed = true
 			}
 		}
 		os.Exit(runCheck(id, tier, only))
@@ -91,7 +93,7 @@ func main() {
 	}
 }
 
-var noEvidence, verbose bool
+var noEvidence, verbose, draftReviewed bool
 
 func usage() {
 	fmt.Fprintln(os.Stderr, "usage: psa check <ID> [--tier quick|thorough] | psa replay <path> | psa list")
@@ -139,6 +141,17 @@ func runCheck(id, tier, only string) (exit int) {
 	reviewed := loadReviewed(id)
 	rep.classify(known, reviewed)
 
+	if draftReviewed {
+		var list []reviewedEntry
+		for _, o := range rep.Obl {
+			if o.Status == stViolation {
+				list = append(list, reviewedEntry{Key: o.Key(), Reason: "TODO", Requires: o.Facts})
+			}
+		}
+		data, _ := json.MarshalIndent(list, "", " ")
+		fmt.Println(string(data))
+		return 0
+	}
 	// output
 	nviol := 0
 	for i := range rep.Obl {
